@@ -16,7 +16,7 @@ impl<T> OnceLock<T> {
     #[verifier::external_body] pub fn get_or_init<F: FnOnce() -> T>(&self, f: F) -> (r: &T) { unimplemented!() }
     #[verifier::external_body] pub fn get(&self) -> (r: Option<&T>) { unimplemented!() }
 }
-#[verifier::external_body] pub struct Instant { p: u8 }
+#[verifier::external_body] #[derive(Clone, Copy)] pub struct Instant { p: u8 }
 pub type Duration = u64;   // only compared against STALL_TIMEOUT (stall logging)
 impl Instant {
     #[verifier::external_body] pub fn now() -> Instant { unimplemented!() }
